@@ -18,6 +18,7 @@ use noodles_fastq as fastq;
 use noodles_gff as gff;
 use noodles_sam::{self as sam, alignment::io::Write as _};
 use noodles_tabix as tabix;
+use noodles_util::alignment::io::{CompressionMethod as ACm, Format as AFmt};
 use noodles_vcf::{self as vcf, variant::io::Write as _};
 use vmc::{
     env::FaultSink,
@@ -47,12 +48,30 @@ struct Docs {
     repo: fasta::Repository,
     p1: Vec<u8>,
     p2: Vec<u8>,
+    /// unmapped record with 70 000 bases: its BAM encoding crosses a BGZF block boundary, so a
+    /// block is emitted from inside `write_alignment_record`
+    big: sam::alignment::RecordBuf,
+    big_log: Vec<String>,
 }
 
 static DOCS: LazyLock<Docs> = LazyLock::new(|| {
-    let a = aln::docs().pop().unwrap();
-    let v = var::docs().pop().unwrap();
+    let a = aln::docs().into_iter().find(|d| d.name == "3-records").unwrap();
+    let v = var::docs().into_iter().find(|d| d.name == "3-records").unwrap();
+    let big = {
+        use sam::alignment::{RecordBuf, record::Flags, record_buf::{QualityScores, Sequence}};
+        let seq: Vec<u8> = (0..70_000u32).map(|i| b"ACGT"[(i.wrapping_mul(2654435761) >> 13) as usize % 4]).collect();
+        let qual: Vec<u8> = (0..70_000u32).map(|i| (i.wrapping_mul(40503) >> 7) as u8 % 40 + 2).collect();
+        RecordBuf::builder()
+            .set_name("big")
+            .set_flags(Flags::UNMAPPED)
+            .set_sequence(Sequence::from(seq))
+            .set_quality_scores(QualityScores::from(qual))
+            .build()
+    };
+    let big_log = vec![aln::header_key(&a.header), aln::record_buf_key(&big, false)];
     Docs {
+        big,
+        big_log,
         aln_log: aln::doc_log(&a, false),
         aln_log_folded: aln::doc_log(&a, true),
         aln: a,
@@ -132,6 +151,18 @@ fn verify_bam_inner<R: io::Read>(mut r: bam::io::Reader<R>) -> Result<(), String
 fn verify_bam(bytes: &[u8]) -> Result<(), String> {
     bgzf_complete(bytes)?;
     verify_bam_inner(bam::io::Reader::new(bytes))
+}
+
+fn verify_bam_big(bytes: &[u8]) -> Result<(), String> {
+    bgzf_complete(bytes)?;
+    let mut r = bam::io::Reader::new(bytes);
+    let h = r.read_header().map_err(ioerr("read-header"))?;
+    let mut log = vec![aln::header_key(&h)];
+    for rec in r.records() {
+        let rec = rec.map_err(ioerr("read-record"))?;
+        log.push(aln::record_key(&h, &rec, false).map_err(ioerr("decode-record"))?);
+    }
+    if log == DOCS.big_log { Ok(()) } else { Err("content-differs: 70000-base record".into()) }
 }
 
 fn verify_bam_raw(bytes: &[u8]) -> Result<(), String> {
@@ -243,15 +274,37 @@ fn verify_fastq(bytes: &[u8]) -> Result<(), String> {
 }
 
 fn verify_gff(bytes: &[u8]) -> Result<(), String> {
+    // Lazy line API + own rendering. (`line_bufs()` is not used: it returns comments with their
+    // leading '#' and directives with untyped values, so `write_line` -> `line_bufs` is not the
+    // identity even on a perfect sink; that asymmetry belongs to C18, see NOTES.md.)
+    use gff::{LineBuf, feature::RecordBuf};
     let mut r = gff::io::Reader::new(bytes);
-    let got: Vec<gff::LineBuf> =
-        r.line_bufs().collect::<io::Result<_>>().map_err(ioerr("read-line"))?;
-    let want = misc::gff_lines();
-    if got == want {
-        Ok(())
-    } else {
-        Err(format!("content-differs: expected {want:?} got {got:?}"))
+    let mut got = Vec::new();
+    for line in r.lines() {
+        let line = line.map_err(ioerr("read-line"))?;
+        if let Some(d) = line.as_directive() {
+            got.push(format!("D {} {:?}", d.key(), d.value().map(|v| v.to_string())));
+        } else if let Some(c) = line.as_comment() {
+            got.push(format!("C {c}"));
+        } else if let Some(rec) = line.as_record() {
+            let rec = rec.map_err(ioerr("read-record"))?;
+            let buf = RecordBuf::try_from_feature_record(&rec).map_err(ioerr("decode-record"))?;
+            got.push(format!("R {buf:?}"));
+        }
+        if got.len() > bytes.len() + 10 {
+            return Err("reader-does-not-terminate".into());
+        }
     }
+    let want: Vec<String> = misc::gff_lines()
+        .iter()
+        .map(|l| match l {
+            // the only directive of the document is `##gff-version 3`
+            LineBuf::Directive(d) => format!("D {} {:?}", d.key(), Some("3".to_string())),
+            LineBuf::Comment(c) => format!("C {c}"),
+            LineBuf::Record(r) => format!("R {r:?}"),
+        })
+        .collect();
+    cmp_logs(&want, &got)
 }
 
 fn bed_key<const N: usize, R: bed::feature::Record<N>>(r: &R) -> io::Result<String> {
@@ -361,7 +414,17 @@ fn verify_crai(bytes: &[u8]) -> Result<(), String> {
     if h.finalize() != crc || isize as usize != data.len() {
         return Err("bad-gzip-trailer: CRC32/ISIZE mismatch".into());
     }
-    let got = cram::crai::io::Reader::new(bytes).read_index().map_err(ioerr("read-index"))?;
+    // record by record: `crai::io::Reader::read_index` does not clear its line buffer between
+    // records and rejects every index with >= 2 records (a reader defect, C17's business; NOTES.md)
+    let mut r = cram::crai::io::Reader::new(bytes);
+    let mut rec = cram::crai::Record::default();
+    let mut got = Vec::new();
+    while r.read_record(&mut rec).map_err(ioerr("read-record"))? != 0 {
+        got.push(rec.clone());
+        if got.len() > bytes.len() + 10 {
+            return Err("reader-does-not-terminate".into());
+        }
+    }
     cmp_val(&misc::crai_index(), &got)
 }
 
@@ -440,6 +503,37 @@ fn run_bam(sink: FaultSink, p: &mut Proto, end: End) {
         End::TraitFinish => step!(p, "finish", w.finish(h)),
         _ => step!(p, "try_finish", w.try_finish()),
     }
+}
+
+fn run_bam_big(sink: FaultSink, p: &mut Proto) {
+    let d = &*DOCS;
+    let h = &d.aln.header;
+    let mut w = bam::io::Writer::new(sink);
+    step!(p, "write_header", w.write_header(h));
+    step!(p, "write_alignment_record#big", w.write_alignment_record(h, &d.big));
+    step!(p, "try_finish", w.try_finish());
+}
+
+fn run_util_aln(sink: FaultSink, p: &mut Proto, fmt: AFmt, cm: Option<ACm>) {
+    let d = &*DOCS;
+    let h = &d.aln.header;
+    let built = noodles_util::alignment::io::writer::Builder::default()
+        .set_format(fmt)
+        .set_compression_method(cm)
+        .set_reference_sequence_repository(d.repo.clone())
+        .build_from_writer(sink);
+    let mut w = match built {
+        Ok(w) => w,
+        Err(e) => {
+            p.call("build_from_writer", || Err(e));
+            return;
+        }
+    };
+    step!(p, "write_header", w.write_header(h));
+    step!(p, "write_record#0", w.write_record(h, &d.aln.records[0]));
+    step!(p, "write_record#1", w.write_record(h, &d.aln.records[1]));
+    step!(p, "write_record#2", w.write_record(h, &d.aln.records[2]));
+    step!(p, "finish", w.finish(h));
 }
 
 fn run_bam_raw(sink: FaultSink, p: &mut Proto) {
@@ -678,6 +772,14 @@ pub static SCENARIOS: &[Scenario] = &[
         byte_identical: true,
     },
     Scenario {
+        name: "bam/large-record",
+        protocol: "bam::io::Writer::new(sink); write_header; write_alignment_record(70000-base unmapped record: a BGZF block is emitted inside the call); try_finish(); drop",
+        run: run_bam_big,
+        verify: verify_bam_big,
+        complete: true,
+        byte_identical: true,
+    },
+    Scenario {
         name: "bam/raw",
         protocol: "bam::io::Writer::from(sink) (uncompressed); write_header; write_alignment_record x3; finish(&header)",
         run: run_bam_raw,
@@ -844,5 +946,46 @@ pub static SCENARIOS: &[Scenario] = &[
         verify: verify_fastq_fai,
         complete: true,
         byte_identical: true,
+    },
+    // noodles-util generic alignment writer: `finish(&header)` is its only shutdown call
+    Scenario {
+        name: "util-alignment/sam",
+        protocol: "noodles_util::alignment::io::writer::Builder (Format::Sam, None) build_from_writer(sink); write_header; write_record x3; finish(&header); drop",
+        run: |s, p| run_util_aln(s, p, AFmt::Sam, None),
+        verify: verify_sam,
+        complete: true,
+        byte_identical: true,
+    },
+    Scenario {
+        name: "util-alignment/sam.gz",
+        protocol: "noodles_util::alignment::io::writer::Builder (Format::Sam, Some(Bgzf)) build_from_writer(sink); write_header; write_record x3; finish(&header); drop",
+        run: |s, p| run_util_aln(s, p, AFmt::Sam, Some(ACm::Bgzf)),
+        verify: verify_sam_gz,
+        complete: true,
+        byte_identical: true,
+    },
+    Scenario {
+        name: "util-alignment/bam",
+        protocol: "noodles_util::alignment::io::writer::Builder (Format::Bam, Some(Bgzf)) build_from_writer(sink); write_header; write_record x3; finish(&header); drop",
+        run: |s, p| run_util_aln(s, p, AFmt::Bam, Some(ACm::Bgzf)),
+        verify: verify_bam,
+        complete: true,
+        byte_identical: true,
+    },
+    Scenario {
+        name: "util-alignment/bam-raw",
+        protocol: "noodles_util::alignment::io::writer::Builder (Format::Bam, None) build_from_writer(sink); write_header; write_record x3; finish(&header); drop",
+        run: |s, p| run_util_aln(s, p, AFmt::Bam, None),
+        verify: verify_bam_raw,
+        complete: true,
+        byte_identical: true,
+    },
+    Scenario {
+        name: "util-alignment/cram",
+        protocol: "noodles_util::alignment::io::writer::Builder (Format::Cram, None, repository) build_from_writer(sink); write_header; write_record x3; finish(&header); drop",
+        run: |s, p| run_util_aln(s, p, AFmt::Cram, None),
+        verify: verify_cram,
+        complete: true,
+        byte_identical: false,
     },
 ];
